@@ -59,6 +59,8 @@ type sigScript struct {
 	Sigs   []sigEvent `json:"signals"`
 	Reqs   []sigReq   `json:"requests"`
 	Probes []int      `json:"connects_at_ms"`
+	// class real-main-consul-deregister only (deregister.go): the consul backend against an agent of the harness
+	Consul *consulPlan `json:"consul_agent,omitempty"`
 }
 
 type sigObs struct {
@@ -73,6 +75,10 @@ type sigResult struct {
 	Reqs     []sigObs `json:"requests"`
 	Probes   []bool   `json:"connects_accepted"` // per probe time: proxy listener, then ui listener
 	Log      string   `json:"log_tail,omitempty"`
+	// consul scripts: the origin on the clock of the registration goroutine (ms since its first
+	// registration call), and when the agent went down on that clock (-1: it did not)
+	Boot      int `json:"boot_ms,omitempty"`
+	DownModel int `json:"agent_down_boot_clock_ms,omitempty"`
 }
 
 func (s sigScript) firstTerm() int {
@@ -262,13 +268,23 @@ func runSigScript(bin, repo, dir string, idx int, sc sigScript) (res sigResult, 
 	doneF := filepath.Join(dir, fmt.Sprintf("sig%d.done", idx))
 	os.Remove(readyF)
 	os.Remove(doneF)
-	b, _ := json.Marshal(map[string]interface{}{"Routes": "route add svc / " + up.URL + "/\n", "WaitMs": sc.Wait, "Ready": readyF, "Done": doneF})
+	routes := "route add svc / " + up.URL + "/\n"
+	b, _ := json.Marshal(map[string]interface{}{"Routes": routes, "WaitMs": sc.Wait, "Ready": readyF, "Done": doneF})
+	testName, envName := "TestVerifC18$", "VERIF_C18_IN"
+	var agent *fakeAgent
+	res.DownModel = -1
+	if sc.Consul != nil {
+		agent = newFakeAgent(routes, *sc.Consul)
+		defer agent.close()
+		b, _ = json.Marshal(map[string]interface{}{"Consul": agent.addr(), "WaitMs": sc.Wait, "GraceMs": sc.Consul.GraceMs, "Ready": readyF, "Done": doneF})
+		testName, envName = "TestVerifC18Consul$", "VERIF_C18_CONSUL_IN"
+	}
 	if err := os.WriteFile(inF, b, 0o644); err != nil {
 		return res, err
 	}
-	cmd := exec.Command(bin, "-test.run", "TestVerifC18$", "-test.count=1", "-test.timeout=2m")
+	cmd := exec.Command(bin, "-test.run", testName, "-test.count=1", "-test.timeout=2m")
 	cmd.Dir = repo
-	cmd.Env = append(os.Environ(), "VERIF_C18_IN="+inF)
+	cmd.Env = append(os.Environ(), envName+"="+inF)
 	var logb bytes.Buffer
 	cmd.Stdout, cmd.Stderr = &logb, &logb
 	if err := cmd.Start(); err != nil {
@@ -304,6 +320,40 @@ func runSigScript(bin, repo, dir string, idx int, sc sigScript) (res sigResult, 
 			return res, fmt.Errorf("the fabio process did not report its listeners within 30 s: %s", tail(logb.String()))
 		}
 		time.Sleep(10 * time.Millisecond)
+	}
+
+	if agent != nil {
+		// the manual route to the upstream comes through the agent's KV store and may arrive a
+		// moment after the listeners: wait until the proxy routes
+		routed := false
+		for deadline := time.Now().Add(10 * time.Second); !routed && time.Now().Before(deadline); {
+			resp, e := (&http.Client{Timeout: 2 * time.Second, Transport: &http.Transport{DisableKeepAlives: true}}).Get("http://" + ready.Proxy + "/l/warmup/0")
+			if e == nil {
+				routed = resp.StatusCode == 200
+				resp.Body.Close()
+			}
+			if !routed {
+				time.Sleep(20 * time.Millisecond)
+			}
+		}
+		if first, _, _ := agent.state(); !routed || first.IsZero() {
+			kill()
+			return res, fmt.Errorf("fabio with the consul backend did not route to the upstream / did not try to register (routed %v): %s", routed, tail(logb.String()))
+		}
+		if sc.Consul.Noticed {
+			agent.goDown()
+			for deadline := time.Now().Add(25 * time.Second); ; {
+				if _, _, failed := agent.state(); failed > 0 {
+					break
+				}
+				if time.Now().After(deadline) {
+					kill()
+					return res, fmt.Errorf("fabio's registration loop did not try to register again within 25 s after the agent went down: %s", tail(logb.String()))
+				}
+				time.Sleep(50 * time.Millisecond)
+			}
+			time.Sleep(300 * time.Millisecond)
+		}
 	}
 
 	// the clients
@@ -374,6 +424,21 @@ func runSigScript(bin, repo, dir string, idx int, sc sigScript) (res sigResult, 
 
 	at := func(ms int) { time.Sleep(time.Until(origin.Add(time.Duration(ms) * time.Millisecond))) }
 	last := 0
+	extra := 0 // consul scripts: what the agent and the grace period add before the drain begins
+	if agent != nil {
+		first, downTime, _ := agent.state()
+		res.Boot = int(origin.Sub(first) / time.Millisecond)
+		if sc.Consul.Noticed {
+			res.DownModel = max0(int(downTime.Sub(first) / time.Millisecond))
+		} else if sc.Consul.DownAt >= 0 {
+			res.DownModel = res.Boot + sc.Consul.DownAt
+			go func() {
+				at(sc.Consul.DownAt)
+				agent.goDown()
+			}()
+		}
+		extra = sc.Consul.HoldDereg + sc.Consul.GraceMs
+	}
 	for _, e := range sc.Sigs {
 		if e.At > last {
 			last = e.At
@@ -422,7 +487,7 @@ func runSigScript(bin, repo, dir string, idx int, sc sigScript) (res sigResult, 
 	// the end of the script
 	t0 := sc.firstTerm()
 	if t0 >= 0 {
-		capAt := t0 + sc.Wait + 4000
+		capAt := t0 + extra + sc.Wait + 4000
 		if last+400 > capAt {
 			capAt = last + 400
 		}
@@ -465,6 +530,11 @@ func runSigScript(bin, repo, dir string, idx int, sc sigScript) (res sigResult, 
 	}
 	clients.Wait()
 	res.Log = tail(logb.String())
+	if res.Exit == "failed" && strings.Contains(logb.String(), "address already in use") {
+		// the driver picks its two free ports before fabio binds them: another process of this run took one
+		// in between, fabio's own exit.Fatal ended the process.  No verdict: the script is run again.
+		return res, fmt.Errorf("a listen address picked for fabio was taken by another process before fabio bound it: %s", res.Log)
+	}
 	for _, o := range res.Reqs {
 		if strings.HasPrefix(o.K, "dial-error") {
 			return res, fmt.Errorf("a client could not connect for another reason than a refused connection: %s", o.K)
@@ -474,6 +544,10 @@ func runSigScript(bin, repo, dir string, idx int, sc sigScript) (res sigResult, 
 }
 
 type sigRun struct {
+	class    string
+	bin, dir string
+	built    chan struct{}  // closed when the driver binary is there (or could not be built)
+	keep     sync.WaitGroup // other classes that still use the binary
 	scs      []sigScript
 	res      []sigResult
 	errs     []error
@@ -484,23 +558,30 @@ type sigRun struct {
 
 // startSigClass builds the driver and runs all scripts in the background, one process each.
 func startSigClass(seed int64, thorough bool) *sigRun {
-	sr := &sigRun{scs: sigScripts(seed, thorough), done: make(chan struct{})}
+	sr := &sigRun{scs: sigScripts(seed, thorough), done: make(chan struct{}), built: make(chan struct{}), class: "real-main-signals"}
 	sr.res = make([]sigResult, len(sr.scs))
 	sr.errs = make([]error, len(sr.scs))
 	go func() {
-		defer close(sr.done)
 		dir, err := os.MkdirTemp("", "c18sig")
 		if err != nil {
 			sr.buildErr = err
+			close(sr.built)
+			close(sr.done)
 			return
 		}
-		defer os.RemoveAll(dir)
+		defer func() {
+			sr.keep.Wait()
+			os.RemoveAll(dir)
+		}()
+		defer close(sr.done)
 		bin, repo, err := buildSigDriver(dir)
-		sr.repo = repo
+		sr.repo, sr.bin, sr.dir = repo, bin, dir
 		if err != nil {
 			sr.buildErr = err
+			close(sr.built)
 			return
 		}
+		close(sr.built)
 		sem := make(chan struct{}, 8)
 		var wg sync.WaitGroup
 		for i := range sr.scs {
@@ -527,6 +608,9 @@ func coqSig(s string) string { return map[string]string{"HUP": "SHup", "INT": "S
 // finish turns every script into one CSig case.
 func (sr *sigRun) finish(run *vh.Run) {
 	<-sr.done
+	if sr.buildErr != nil && sr.class != "real-main-signals" {
+		return // reported by the class that builds the driver
+	}
 	if sr.buildErr != nil {
 		run.Violation(run.NextID(), "cannot build the real-main driver (go test -tags verif -c in "+sr.repo+"): "+sr.buildErr.Error(), nil)
 		return
@@ -575,7 +659,10 @@ func (sr *sigRun) finish(run *vh.Run) {
 		}
 		term := vh.App("CSig", strconv.Itoa(sc.Wait), vh.List(ss), vh.List(qs), vh.List(ps), x, vh.List(os_), vh.List(acc),
 			strconv.Itoa(lowerTol), strconv.Itoa(sigUpperTol))
-		id := run.Add("real-main-signals", term, map[string]interface{}{"script": sc, "observed": res})
+		if sc.Consul != nil {
+			term = deregTerm(sc, res, vh.List(ss), vh.List(qs), vh.List(ps), x, vh.List(os_), vh.List(acc))
+		}
+		id := run.Add(sr.class, term, map[string]interface{}{"script": sc, "observed": res})
 		if res.Exit == "failed" {
 			run.Violation(id, "fabio's real main() did not end by returning nor by a signal in script "+sc.Name+": "+res.ExitNote, sc)
 		}
